@@ -23,4 +23,11 @@ CLAIMED["C16"] = {
     "text": "Decides statically: at every error return of Stream::write the Option latch holding the run state is empty (dataflow with take/refill/None transfer functions), the refill is followed by success only, the None arms of write/finish touch nothing / return Err, and the shared decoding loop tests produced-length against the size with an ordering comparison before any consuming call. 'No sequence of calls panics' is covered by C07.R1 over the same bodies.",
     "note": "Trusts rustc's MIR; Option::take/replace semantics from std.",
 }
-NOT_APPLICABLE = {p: WIP for p in ["C01","C02","C03","C04","C05","C06","C07","C08","C09","C10","C11","C13","C14","C15","C17"]}
+CLAIMED["C06"] = {
+    "engine": "E-CFG/E-TERM",
+    "technique": "static analysis: 18-row obligation table matched by operand provenance, Err-only mismatch edges, must-pass-through to Ok, lossy-operation scan (MIR facts)",
+    "design_ref": "DESIGN.md section 4 / C06",
+    "text": "Decides the first sentence of the property statically: every integrity field of the XZ format (magics, 4 CRC32s, stream flags, declared sizes, paddings, block check CRC32/CRC64, index count/sizes, backward size, trailing data) is compared with the right counterpart (identified by data-flow provenance), a mismatch reaches only Err, no successful return is reachable from the field's read without the comparison, the finalized digest is the one the reads were routed through, and no comparison operand passes a narrowing cast or wrapping arithmetic. Declined: the 'consequently' clause (it rests on CRC32/CRC64 detecting every corruption).",
+    "note": "Trusts rustc's MIR and the documented Read/BufRead contracts.",
+}
+NOT_APPLICABLE = {p: WIP for p in ["C01","C02","C03","C04","C05","C07","C08","C09","C10","C11","C13","C14","C15","C17"]}
